@@ -49,7 +49,8 @@ PlacesNext(id) == (IF \E tx \in pool' : tx.id = id THEN 1 ELSE 0)
                 + (IF id \in refunded' THEN 1 ELSE 0) + (IF id \in burned' THEN 1 ELSE 0)
 OnePlaceNext == \A id \in accepted' : PlacesNext(id) = 1
 SupplyNext == \A d \in Denoms : supply'[d] = supply0[d] + deposited'[d] - burnedSum'[d]
-SafeNext == \A p \in punished' : p.cp \notin issued'
+SafeNext == \A p \in punished' : ~p.wasIssued
+EvCp(e) == IF e.known THEN <<e.args.n, e.args.x>> ELSE <<e.args.n, -1>>
 ConfirmsNext(o) == (\A c \in confirms' : \E b \in batches' : b.nonce = c.nonce /\ b.est = c.est) /\ o.orphanConfirms = 0
 ArchiveNext == issued' \subseteq archived'
 
@@ -80,7 +81,7 @@ TrSend == IsEvent("Send") /\ LET e == Trace[l]  a == e.args  d == TokDenom[a.t] 
   /\ Obs(e.obs) /\ res' = e.res
   /\ lastTx' = IF e.res = "ok" THEN e.id ELSE lastTx
   /\ accepted' = IF e.res = "ok" THEN accepted \cup {e.id} ELSE accepted
-  /\ sent' = IF e.res = "ok" THEN Append(sent, [u |-> a.u, d |-> d, a |-> a.a, h |-> height, lim |-> lim]) ELSE sent
+  /\ sent' = IF e.res = "ok" THEN Append(sent, [u |-> a.u, d |-> d, a |-> a.a, h |-> height, lim |-> lim, limit |-> limit[d].limit]) ELSE sent
   /\ win' = IF e.res = "ok" /\ lim
             THEN [win EXCEPT ![d] = IF @ = NoUsage \/ height - @.start >= Period THEN [total |-> a.a, start |-> height]
                                     ELSE [total |-> @.total + a.a, start |-> @.start]]
@@ -178,11 +179,11 @@ TrConfirm == IsEvent("Confirm") /\ LET e == Trace[l]  a == e.args IN
 
 TrEvidence == IsEvent("Evidence") /\ LET e == Trace[l]  a == e.args IN
   /\ Obs(e.obs) /\ res' = e.res
-  /\ punished' = IF a.v \in jailed' \ jailed THEN punished \cup {[val |-> a.v, cp |-> <<a.n, a.x>>]} ELSE punished
+  /\ punished' = IF a.v \in jailed' \ jailed THEN punished \cup {[val |-> a.v, cp |-> EvCp(e), wasIssued |-> EvCp(e) \in issued]} ELSE punished
   /\ UNCHANGED <<lastTx, lastBatch, tax, limit, claims, accepted, refunded, burned, deposited, burnedSum, sent, supply0, win>>
   /\ Always(e)
   /\ Report("C13.OnlySignerJailed", jailed' \ jailed \subseteq {a.v})
-  /\ Conf("Evidence", (e.res = "ok") = (<<a.n, a.x>> \notin archived))
+  /\ Conf("Evidence", (e.res = "ok") = ((IF e.known THEN <<a.n, a.x>> ELSE <<a.n, -1>>) \notin archived))
 
 TraceInit == Init /\ l = 1 /\ supply0 = [d \in Denoms |-> 0] /\ win = [d \in Denoms |-> NoUsage]
 TraceNext == \/ TrInit \/ TrSend \/ TrCancel \/ TrSetTax \/ TrSetLimit \/ TrClaim("ClaimExecuted") \/ TrClaim("ClaimDeposit")
